@@ -302,14 +302,13 @@ func (s *Service) AddMachine(ctx context.Context, specName, id, nodeName string,
 		},
 	}
 
+	// Hold the lock across the write: the machine appears in memory
+	// only if (and when) it has been stored, and no other request
+	// sees or writes the crew in between.
 	c.Lock()
-	_, have := c.Machines[id]
-	if !have {
-		c.Machines[id] = &m
-	}
-	c.Unlock()
+	defer c.Unlock()
 
-	if have {
+	if _, have := c.Machines[id]; have {
 		return Exists
 	}
 
@@ -320,7 +319,13 @@ func (s *Service) AddMachine(ctx context.Context, specName, id, nodeName string,
 		Bs:         m.State.Bs,
 	}
 
-	return s.store.WriteState(ctx, s.crewName, []*MachineState{&ms})
+	if err := s.store.WriteState(ctx, s.crewName, []*MachineState{&ms}); err != nil {
+		return err
+	}
+
+	c.Machines[id] = &m
+
+	return nil
 }
 
 func (s *Service) RemMachine(ctx context.Context, mid string) error {
